@@ -22,7 +22,9 @@ TECHNIQUE = ('bounded exhaustive enumeration of frame slices / samples x channel
 RULE = ('per format: part S = one source file x every Slice(start,stop,step) with start,stop in {None,-n..n}, step in {None,1..n} '
         'selecting >= 1 of n=7 frames and every Sample(1..n+1), other options fixed; part O = reduced selections x every channel '
         'subset (incl. an unknown name) x 5 reductions x widths {4,16} x formats {.3f,.6f}; part F = source files varied (1-2 log '
-        'passes / frame arrays, explicit and implied X, 1..10 frames, frames per record / block). non-trivial = a selection or '
+        'passes / frame arrays, explicit and implied X, 1..10 frames, frames per record / block); part Q = a conversion preceded in the '
+        'same process by 1 (thorough: 2) conversions of other sources (same frame array identity with channels in another order, other '
+        'length, a second pass) x 3 channel subsets x 2 selections. non-trivial = a selection or '
         'option other than the default; outcome = hash of the parsed LAS rows')
 ASSUMPTIONS = ['X axis units of generated sources are FEET so that the "optical" units equal the recorded units (no unit conversion in the oracle)',
                'STEP is compared only when more than one row is written; N/A is accepted for a single row',
@@ -137,6 +139,8 @@ def rp66_source(variant):
     from props import c04
     t0 = [c04.ch('DEPT', 7, [1]), c04.ch('GR', 2, [1]), c04.ch('WAVE', 13, [3])]
     t1 = [c04.ch('TIME', 17, [1]), c04.ch('DEPT', 2, [1], copy=1), c04.ch('IMG', 6, [2, 2])]
+    if variant.get('perm'):
+        t0 = [t0[0], t0[2], t0[1]]
     n0 = variant.get('n', N)
     types = [{'name': 'FT0', 'channels': t0, 'n': n0}]
     if variant.get('two'):
@@ -168,6 +172,8 @@ def lis_source(variant):
     from props import c06
     cfg = [c06.chan('DEPT', 68, units='FEET'), c06.chan('GR  ', 68, units='GAPI'), c06.chan('SP  ', 79, 2, 1, units='MV  ')]
     indirect = variant.get('indirect', 0)
+    if variant.get('perm'):
+        cfg = [cfg[0], cfg[2], cfg[1]]
     if indirect:
         cfg = cfg[1:]
     n = variant.get('n', N)
@@ -203,6 +209,8 @@ def bit_source(variant):
     from props import c13
     n = variant.get('n', N)
     passes_m = [c13.layout_pass(0, variant.get('channels', 3), n, variant.get('fpb', 3), variant.get('xyz', (100, 97, 0.5)))]
+    if variant.get('perm'):
+        passes_m[0]['names'] = passes_m[0]['names'][::-1]
     if variant.get('two'):
         passes_m.append(c13.layout_pass(1, 2, variant.get('n1', 4), 2, (97, 100, 0.25)))
     data = bit_ref.produce({'passes': passes_m})
@@ -312,11 +320,23 @@ def expected_columns(fmt, p, requested):
     return [i for i, ch in enumerate(p['channels']) if i == 0 or ch['name'].strip() in {r.strip() for r in requested}]
 
 
-def check_conversion(fmt, variant, opts, workdir):
+def check_conversion(fmt, variant, opts, workdir, before=()):
+    """before: variants converted first, with the same options, in this process (their outputs are checked when they are the
+    case themselves); what the checked conversion writes must not depend on them."""
+    shutil.rmtree(workdir, ignore_errors=True)
+    for k, bv in enumerate(before):
+        bdata, bname, _ = SOURCES[fmt](bv)
+        bd = os.path.join(workdir, 'before%d' % k)
+        os.makedirs(os.path.join(bd, 'out'))
+        with open(os.path.join(bd, bname), 'wb') as f:
+            f.write(bdata)
+        try:
+            convert(fmt, os.path.join(bd, bname), os.path.join(bd, 'out', os.path.splitext(bname)[0] if fmt != 'rp66' else bname), opts)
+        except Exception:  # noqa - reported when that conversion is the case itself
+            pass
     data, fname, passes = SOURCES[fmt](variant)
     d = os.path.join(workdir, 'in')
     o = os.path.join(workdir, 'out')
-    shutil.rmtree(workdir, ignore_errors=True)
     os.makedirs(d)
     os.makedirs(o)
     path_in = os.path.join(d, fname)
@@ -479,8 +499,8 @@ def all_selections(n, negative_steps=False):
 # for the formats whose converters take any slice.
 NEGATIVE_STEP_FORMATS = ('rp66', 'bit')
 DEFAULT = {'sel': None, 'channels': [], 'reduction': 'first', 'width': 16, 'fmt': '.3f'}
-CHANNEL_SETS = {'rp66': [[], ['GR'], ['WAVE', 'GR'], ['NOPE'], ['DEPT']], 'lis': [[], ['GR  '], ['SP  ', 'GR  '], ['NOPE']],
-                'bit': [[], ['COND'], ['NOPE']]}
+CHANNEL_SETS = {'rp66': [[], ['GR'], ['WAVE', 'GR'], ['NOPE'], ['DEPT'], ['WAVE']], 'lis': [[], ['GR  '], ['SP  ', 'GR  '], ['NOPE'], ['SP  ']],
+                'bit': [[], ['COND'], ['NOPE'], ['SP  ', 'COND'], ['SN  ']]}
 
 
 def gen_cases(tier, fmt):
@@ -504,6 +524,21 @@ def gen_cases(tier, fmt):
                                'opts': {'sel': sel, 'channels': chs, 'reduction': red, 'width': width, 'fmt': ff}}
     if fmt == 'rp66':
         yield {'variant': {'origin': 'minimal'}, 'opts': dict(DEFAULT)}
+    # part Q: conversions that follow other conversions in the same process (same frame array identity and channel count,
+    # channels in another order; a different length; a second pass)
+    alts = [{}, {'perm': True}, {'n': 4}, {'two': True}] + ([{'indirect': 68}, {'indirect': 68, 'perm': True}] if fmt == 'lis' else [])
+    for v in alts:
+        for b in alts:
+            if b == v:
+                continue
+            for chs in CHANNEL_SETS[fmt][:3]:
+                for sel in (None, ['slice', 1, None, 2]):
+                    yield {'variant': v, 'before': [b], 'opts': dict(DEFAULT, sel=sel, channels=chs)}
+        if tier == 'thorough':
+            for b0 in alts:
+                for b1 in alts:
+                    if b1 != v:
+                        yield {'variant': v, 'before': [b0, b1], 'opts': dict(DEFAULT, channels=CHANNEL_SETS[fmt][1])}
     # part F
     if tier == 'thorough':
         # every channel subset x reduction x width x format against every 7-frame slice with a step (incl. negative ones)
@@ -555,7 +590,7 @@ def run_shard(shard, tier):
             if key in seen:
                 continue
             seen.add(key)
-            bad, outcome = check_conversion(fmt, case['variant'], case['opts'], workdir)
+            bad, outcome = check_conversion(fmt, case['variant'], case['opts'], workdir, case.get('before', ()))
             full = dict(case, fmt=fmt)
             res.case(h64((fmt, key)), nontrivial=case['opts'] != DEFAULT or bool(case['variant']), outcome=outcome,
                      sample=full if i % 997 == 3 else None)
@@ -570,7 +605,7 @@ def run_shard(shard, tier):
 def replay(case):
     workdir = os.path.join(seams.SCRATCH, 'c11-replay-%d' % os.getpid())
     try:
-        bad, _ = check_conversion(case['fmt'], case['variant'], case['opts'], workdir)
+        bad, _ = check_conversion(case['fmt'], case['variant'], case['opts'], workdir, case.get('before', ()))
     finally:
         shutil.rmtree(workdir, ignore_errors=True)
     return [{'sig': s, 'case': case, 'msg': m} for s, m in bad]
